@@ -22,6 +22,10 @@ OptR == R("optional", BV(TRUE))
 One == Lit(NumD(N1), <<>>)
 TName(i) == CASE i = 0 -> "@t0" [] i = 1 -> "@t1" [] i = 2 -> "@t2" [] i = 3 -> "@t3" [] OTHER -> "@missing"
 Targets == {TName(i) : i \in 0..(NTypes - 1)} \cup {"@missing"}
+\* a required property whose value may be null: null is an inhabitant, but the statement lists a non-optional property among the required
+\* references - whether Check accepts such a cycle is not decided here (Want = "unspec"); what is decided: if it does, Example is valid (C15)
+NullR == R("nullable", BV(TRUE))
+NullableBodies == {Obj(<<P(Ka, Ref(<<x>>, <<NullR>>))>>, <<>>) : x \in Targets \ {"@missing"}}
 Bodies ==
      {One}
 \cup {Ref(<<x>>, <<>>) : x \in Targets}
@@ -29,6 +33,7 @@ Bodies ==
 \cup {Obj(<<P(Ka, Ref(<<x>>, <<>>))>>, <<>>) : x \in Targets}
 \cup {Obj(<<P(Ka, Ref(<<x>>, <<OptR>>))>>, <<>>) : x \in Targets}
 \cup {Arr(<<Ref(<<x>>, <<>>)>>, <<>>) : x \in Targets}
+\cup NullableBodies
 \cup {Arr(<<Ref(<<x>>, <<>>), One>>, <<>>) : x \in Targets}                       \* a reference item followed by another item (positions)
 \cup {Obj(<<P(Ka, Arr(<<Ref(<<x>>, <<>>), One>>, <<>>))>>, <<>>) : x \in Targets \ {"@missing"}}
 \cup {Obj(<<P(Ka, Ref(<<x>>, <<>>)), P(Kb, Ref(<<y>>, <<OptR>>))>>, <<>>) : x \in Targets \ {"@missing"}, y \in Targets \ {"@missing"}}
@@ -73,17 +78,18 @@ Next == UNCHANGED <<bodies, root>>
 Spec == Init /\ [][Next]_<<bodies, root>>
 Env == [types |-> [i \in 1..NTypes |-> [name |-> TName(i - 1), n |-> bodies[i - 1]]], enums |-> <<>>]
 \* (a key type that is not a string is an error of its own, which may be reported before a missing name)
-Want == IF Level = 4 THEN "unspec" ELSE GraphVerdict(Env, root)
+UsesNullable == \E i \in DOMAIN bodies : bodies[i] \in NullableBodies
+Want == IF Level = 4 \/ UsesNullable THEN "unspec" ELSE GraphVerdict(Env, root)
 Emit == PrintT("@@CASE " \o ToJson([schema |-> root, env |-> Env, want |-> Want,
                                    missing |-> SetToSeq(Missing(Env, root)), used |-> SetToSeq(Refs(root)),
                                    pred_star_rejects |-> I!ImplRejectsRecursion(Env, root, FALSE),
                                    pred_mesh_rejects |-> I!ImplRejectsRecursion(Env, root, TRUE),
                                    pred_1303 |-> I!Pred1303(Env, root)]))
 \* the example builder (I layer, ExBuild) yields, on every accepted graph, a value the requirement accepts
-ExampleValid == (Level \in {1, 2, 3} /\ GraphVerdict(Env, root) = "accept") =>
+ExampleValid == (Level \in {1, 2, 3} /\ ~UsesNullable /\ GraphVerdict(Env, root) = "accept") =>
                   LET ex == X!Example(Env, root) IN ex # X!NIL /\ Verdict(Env, root, ex, FALSE) = "accept"
 \* under the mesh protocol the implementation-shaped search agrees with the requirement (where that is specified)
-MeshModelAgrees == (GraphVerdict(Env, root) \in {"accept", "reject"}) =>
+MeshModelAgrees == (~UsesNullable /\ GraphVerdict(Env, root) \in {"accept", "reject"}) =>
                      ((I!ImplRejectsRecursion(Env, root, TRUE) \/ I!Pred1303(Env, root)) <=> (GraphVerdict(Env, root) = "reject" \/ I!Pred1303(Env, root)))
 \* theorem of the requirement: whatever has an inhabitant is accepted by Sem for SOME document is not checked here (documents unbounded);
 \* instead: inhabitation is monotone - adding an optional marker never turns an accepted graph into a rejected one (spot theorem, Level 1)
